@@ -202,10 +202,8 @@ class SymStr:
     def __str__(self):  # only reached from uninstrumented code (diagnostics)
         return symx.TaintedStr(repr(self))
 
-    def __format__(self, spec):
-        if spec == "":
-            return self
-        raise Unsupported(f"format spec {spec!r} on symbolic text")
+    def __format__(self, spec):  # only reached from uninstrumented code (diagnostics): CPython insists on a real str
+        return symx.TaintedStr(repr(self))
 
     # ---- character classes (fork per cell) ----
     def _all(self, name):
@@ -801,7 +799,9 @@ RENDER_INTS = [False]  # checks that need exact decimal text of symbolic ints sw
 
 def _h_format(v, spec):
     if type(v) is SymStr:
-        return v.__format__(spec)
+        if spec == "":
+            return v
+        raise Unsupported(f"format spec {spec!r} on symbolic text")
     if type(v) is SymInt and RENDER_INTS[0]:
         if spec in ("", "d"):
             return render_int(v)
